@@ -229,9 +229,10 @@ class Sim:
             W.log(step=self.step, outcome='fault', exc=type(exc).__name__ if exc else None)
             return
         if not matched:
-            if not isinstance(exc, wn.Error):
+            if exc is not None and not isinstance(exc, wn.Error):
                 raise self.violation('remove-nomatch', 'remove of a specifier matching nothing '
-                                     'did not raise wn.Error', {'exc': repr(exc), 'op': op})
+                                     'raised %s' % type(exc).__name__,
+                                     {'exc': repr(exc), 'op': op})
             W.log(step=self.step, outcome='nomatch')
             return
         if exc is not None:
